@@ -367,3 +367,68 @@ Proof.
     (dcmp_value inst b c y z Hb Hc), (dcmp_value inst a c x z Ha Hc), !Ok_inj.
   split; [unfold dcmp; now rewrite String.eqb_refl|]. apply compare_order_laws.
 Qed.
+
+(* ------------------------------------------------------------------ *)
+(* several configurations in one process                               *)
+(* ------------------------------------------------------------------ *)
+Section ReinitProofs.
+  Variable isecs : string -> option Z.
+  Variable keyf : config -> Z.
+  (* the key determines everything the cached functions depend on *)
+  Hypothesis key_sound : forall c1 c2 o, keyf c1 = keyf c2 -> pure_rop isecs c1 o = pure_rop isecs c2 o.
+
+  Definition kind_op (kind : Z) (a b : string) : rop :=
+    if kind =? 0 then RCmp a b else if kind =? 1 then RAdd a b else RSub a b.
+
+  (* every entry is what any configuration with that key would compute *)
+  Definition cache_ok (cache : list (centry)) : Prop :=
+    forall kind a b k r, In (kind, a, b, k, r) cache ->
+    forall c, keyf c = k -> pure_rop isecs c (kind_op kind a b) = r.
+
+  Lemma clookup_In kind a b k cache r :
+    clookup kind a b k cache = Some r -> In (kind, a, b, k, r) cache.
+  Proof.
+    induction cache as [|[[[[kind' a'] b'] k'] r'] rest IH]; cbn [clookup]; [discriminate|].
+    destruct (Z.eqb_spec kind kind') as [->|]; cbn [andb]; [|intros H; right; auto].
+    destruct (String.eqb_spec a a') as [->|]; cbn [andb]; [|intros H; right; auto].
+    destruct (String.eqb_spec b b') as [->|]; cbn [andb]; [|intros H; right; auto].
+    destruct (Z.eqb_spec k k') as [->|]; [|intros H; right; auto].
+    intros [= ->]. now left.
+  Qed.
+
+  Lemma cached_spec kind a b c cache o r cache' :
+    o = kind_op kind a b -> cache_ok cache ->
+    cached isecs keyf kind a b c cache o = (r, cache') ->
+    r = pure_rop isecs c o /\ cache_ok cache'.
+  Proof.
+    intros Eo Hc. unfold cached. destruct (clookup kind a b (keyf c) cache) as [r0|] eqn:El.
+    - intros [= <- <-]. split; [|exact Hc].
+      apply clookup_In in El. rewrite Eo. symmetry. exact (Hc _ _ _ _ _ El c eq_refl).
+    - intros [= <- <-]. split; [reflexivity|].
+      destruct (is_rerr (pure_rop isecs c o)); [exact Hc|].
+      intros kind' a' b' k' r' [E|Hin]; [|eauto].
+      injection E as <- <- <- <- <-. intros c' Hk. rewrite <- Eo. now apply key_sound.
+  Qed.
+
+  Lemma run_rop_spec c cache o r cache' :
+    cache_ok cache -> run_rop isecs keyf c cache o = (r, cache') ->
+    r = pure_rop isecs c o /\ cache_ok cache'.
+  Proof.
+    intros Hc. destruct o as [a b|a|p i|p i]; cbn [run_rop].
+    - destruct (String.eqb_spec a b) as [->|Hne].
+      + intros [= <- <-]. split; [|exact Hc]. cbn. unfold dcmp. now rewrite String.eqb_refl.
+      + apply cached_spec; auto.
+    - intros [= <- <-]. auto.
+    - apply cached_spec; auto.
+    - apply cached_spec; auto.
+  Qed.
+
+  Lemma run_scenario_spec steps : forall cache,
+    cache_ok cache ->
+    run_scenario isecs keyf cache steps = map (fun '(c, o) => pure_rop isecs c o) steps.
+  Proof.
+    induction steps as [|[c o] rest IH]; intros cache Hc; cbn [run_scenario map]; [reflexivity|].
+    destruct (run_rop isecs keyf c cache o) as [r cache'] eqn:E.
+    destruct (run_rop_spec _ _ _ _ _ Hc E) as [-> Hc']. f_equal. now apply IH.
+  Qed.
+End ReinitProofs.
